@@ -169,6 +169,7 @@ class _Run:
         self.sink_nodes = {}
         self.dirs = {}
         self.instrumented = 0
+        self.final = False
 
     def index_of(self, ssc, d):
         for i, x in enumerate(ssc._dstreams):
@@ -226,7 +227,7 @@ class _Run:
                 r = s.slice(call[2], call[3])
             elif op == FOREACH:
                 cell = [None]
-                s.foreachRDD(self._sink(cell))
+                s.foreachRDD(self._sink(cell, ssc if len(call) > 2 and call[2] else None))
                 r = ssc._dstreams[-1]
                 cell[0] = len(ssc._dstreams) - 1
                 self.sink_nodes[cell[0]] = h
@@ -242,9 +243,11 @@ class _Run:
             handles.append(r)
         return handles
 
-    def _sink(self, cell):
+    def _sink(self, cell, stop_ssc=None):
         def action(t, rdd):
             self.events.append((2, cell[0], int(t), None if rdd is None else canon_contents(rdd.collect())))
+            if stop_ssc is not None and self.final:
+                stop_ssc.stop()      # "stop once enough data has been seen", from inside the output action
         return action
 
     def instrument(self, ssc):
@@ -297,7 +300,9 @@ class _Run:
                 if not any(len(e) == 1 for e in hist):
                     hist.insert(0, (len(self.prog),))
                 handles, pos, started, ticks = [], 0, False, []
-                for entry in hist:
+                last_cb = max([j for j, e in enumerate(hist) if len(e) == 2], default=-1)
+                for j, entry in enumerate(hist):
+                    self.final = j == last_cb
                     if len(entry) == 1:
                         # graph construction, possibly after start(): the next n calls of the program
                         self.build(sc, ssc, base, self.prog[pos:pos + entry[0]], handles)
@@ -329,7 +334,12 @@ class _Run:
                                                     canon_contents(r.collect()))
                         ct = d._current_time
                         states.append((int(ct) if ct == int(ct) else ct, o))
-                    ticks.append((sorted(self.events, key=_key), states))
+                    layouts = []
+                    for h, call in enumerate(self.prog[:pos]):
+                        if call[0] == REPARTITION:
+                            r = handles[h]._current_rdd
+                            layouts.append((h, None if r is None else [len(x) for x in r.glom().collect()]))
+                    ticks.append((sorted(self.events, key=_key), states, layouts))
                 struct = self.structure(ssc)
                 hnodes = [self.index_of(ssc, r) for r in handles]
             return (struct, hnodes, ticks)
@@ -460,7 +470,7 @@ def oracle(case, result):
             reg = min(len(prog), reg + entry[0])
             continue
         k += 1
-        (t, env), (events, states) = entry, ticks[k]
+        (t, env), (events, states, tick_layouts) = entry, ticks[k]
         if t <= last_t:
             continue   # not a new interval
         last_t = t
@@ -491,11 +501,16 @@ def oracle(case, result):
         for h in range(reg):
             o = states[hn[h]][1]
             obs[h] = None if o is None else o[2]
-        # deliv[h] is True when the stream certainly holds a DELIVERED batch in this interval (possibly
-        # without elements), as opposed to "nothing was delivered" (source exhausted without default, no
-        # new file, slice out of range).  Derived from the history alone.  count() of a delivered batch
-        # must be [n] also for n = 0; only for an interval without any batch the reading accepts [].
-        deliv = {}
+        # Partition-level reference, from the history and the RDD operations alone:
+        #   inst[h]: the stream holds the EmptyRDD placeholder of an interval WITHOUT data (exhausted queue
+        #            without default, queued None, no new file, slice out of range, and what passes it through);
+        #   zp[h]:   its RDD has no partition at all (the placeholder, or an element-wise/partition-wise
+        #            operation on such an RDD).  Every other RDD operation builds partitions (parallelize).
+        # count() must be [n], also for n = 0, unless its input has no partition (reading: then empty);
+        # repartition(n) must have the layout of RDD.repartition(n) unless its input is the placeholder itself
+        # (documented pass-through of DStream.repartition).
+        inst, zp = {}, {}
+        layouts = dict(tick_layouts)
         for h, call in enumerate(prog[:reg]):
             op = call[0]
             if op == QUEUE:
@@ -510,8 +525,8 @@ def oracle(case, result):
                 else:
                     want = [x for b in batches[p:] for x in b]
                     qpos[h] = len(batches)
-                deliv[h] = (p < len(batches) and not (one and batches[p] is None)) or \
-                    (p >= len(batches) and default is not None)
+                nodata = (p >= len(batches) and default is None) or (p < len(batches) and one and batches[p] is None)
+                inst[h] = zp[h] = nodata
                 if obs[h] is None or not _multiset_eq(obs[h], want):
                     return ('queue:delivery', f'{where}: queue stream (call {h}) delivered {obs[h]!r}, expected {want!r}')
                 continue
@@ -520,24 +535,31 @@ def oracle(case, result):
                 new = [(nm, lines) for nm, lines in ls if nm not in seen[h]]
                 seen[h] |= {nm for nm, _ in new}
                 want = [l for _, lines in new for l in lines]
-                deliv[h] = bool(new)
+                inst[h] = zp[h] = not new
                 if obs[h] is None or not _multiset_eq(obs[h], want):
                     return ('file:delivery', f'{where}: file stream (call {h}) delivered {obs[h]!r}, expected {want!r}')
                 continue
             ins = [obs[call[1]]]
-            din = [deliv.get(call[1], False)]
+            a_ = call[1]
             if op in (UNION, COGROUPED, TRANSFORMWITH):
                 ins.append(obs[call[2]])
-                din.append(deliv.get(call[2], False))
-            # a delivered input gives a delivered output (union: either side); everything else: unknown
-            if op == SLICE:
-                deliv[h] = din[0] and call[2] <= t <= call[3]
-            elif op == UNION or (op == TRANSFORMWITH and call[3] == 0):
-                deliv[h] = any(din)
-            elif op == FOREACH:
-                deliv[h] = False
+            b_ = call[2] if op in (UNION, COGROUPED, TRANSFORMWITH) else None
+            ia, za = inst.get(a_, False), zp.get(a_, False)
+            if op in (MAP, FLATMAP, FILTER, MAPVALUES, FLATMAPVALUES, MAPPARTITIONS, MAPPARTITIONSWITHINDEX) or \
+                    (op == TRANSFORM and call[2] in (2, 3, 4, 5)):
+                inst[h], zp[h] = False, za            # MapPartitionsRDD: the parent's partitions
+            elif op == TRANSFORM or (op == TRANSFORMWITH and call[3] == 1):
+                inst[h], zp[h] = ia, za               # returns the RDD it was given
+            elif op == UNION or op == TRANSFORMWITH:
+                both = ia and inst.get(b_, False)     # Context.union: EmptyRDD only if all are, else parallelize
+                inst[h], zp[h] = both, both
+            elif op == REPARTITION:
+                inst[h], zp[h] = ia, ia
+            elif op == SLICE:
+                inside = call[2] <= t <= call[3]
+                inst[h], zp[h] = (ia, za) if inside else (True, True)
             else:
-                deliv[h] = all(din)
+                inst[h], zp[h] = False, False         # groupByKey/reduceByKey/count/reduce/joins...: parallelize
             if any(x is None for x in ins):
                 continue
             if op == FOREACH:
@@ -555,9 +577,15 @@ def oracle(case, result):
                 continue
             if obs[h] is None:
                 return (f'op:{OPNAMES[op]}', f'{where}: call {h} produced no RDD')
-            if op == COUNT and not ins[0] and obs[h] == [] and not din[0]:
-                continue   # reading (DESIGN): count of an interval WITHOUT ANY batch may be an empty RDD;
-                #            a delivered batch without elements must count [0]
+            if op == COUNT and not ins[0] and obs[h] == [] and za:
+                continue   # reading (DESIGN): count of an RDD without any partition may be an empty RDD;
+                #            every other empty input must count [0]
+            if op == REPARTITION:
+                n_, L = call[2], len(ins[0])
+                exp = [] if ia else ([L] if n_ <= 1 else [(i + 1) * L // n_ - i * L // n_ for i in range(n_)])
+                if layouts.get(h) != exp:
+                    return ('op:repartition-layout', f'{where}: call {h} repartition({n_}) of {ins[0]!r} has partition sizes '
+                            f'{layouts.get(h)!r}, RDD.repartition gives {exp!r}')
             if not _multiset_eq(obs[h], want):
                 name = CGOPS[call[3]] if op == COGROUPED else OPNAMES[op]
                 return (f'op:{name}', f'{where}: call {h} {name} on {ins!r} gave {obs[h]!r}, the RDD operation gives {want!r}')
@@ -729,8 +757,17 @@ def gen_times(rng, n):
     return ts
 
 
+def _maybe_stopper(rng, prog, p=0.25):
+    """One output action (any position among the registered ones) calls ssc.stop() in the last interval."""
+    acts = [h for h, c in enumerate(prog) if c != 'FILE' and c[0] == FOREACH]
+    if acts and rng.random() < p:
+        h = rng.choice(acts)
+        prog[h] = (FOREACH, prog[h][1], 1)
+
+
 def gen_case(rng, with_files=False, with_none=False):
     prog, _ = gen_program(rng, with_files=with_files, with_none=with_none)
+    _maybe_stopper(rng, prog)
     nt = rng.randint(1, 6)
     times = gen_times(rng, nt)
     fsrc = [h for h, c in enumerate(prog) if c == 'FILE']
@@ -768,7 +805,7 @@ SYS_BIN = [(UNION,), (COGROUPED, 0, None), (COGROUPED, 1, None), (COGROUPED, 1, 
            (COGROUPED, 3, None), (COGROUPED, 4, None), (TRANSFORMWITH, 0)]
 SYS_HIST = [
     # (oneAtATime, default: False = None | True = the first batch | 'empty' = [], times)
-    (True, False, [1, 2, 3]),
+    (True, False, [1, 2, 3, 4, 5]),          # two exhausted intervals without default
     (True, True, [1, 2, 3, 4]),
     (False, True, [1, 2, 3]),
     (True, 'empty', [1, 2, 3, 4]),
@@ -799,6 +836,18 @@ def systematic():
                 times = [1, 2, 3, 4, 5, 6, 7, 8]
             src = (QUEUE, bs, one, dv)
             hist = [(t, []) for t in times]
+            if not light and one and dflt is False:
+                # repartition (and count behind it) directly on the source and behind 1-2 lazily derived streams,
+                # through batches, an empty batch and exhausted intervals
+                lazy = SYS_UNARY[ty][:1] + [sp for sp in SYS_UNARY[ty] if sp[0] in (MAP, FLATMAP, FILTER, MAPVALUES,
+                                                                                   FLATMAPVALUES, TRANSFORM, MAPPARTITIONS)]
+                for n_ in (1, 2, 3):
+                    cases.append(([src, (REPARTITION, 0, n_), (COUNT, 1), (FOREACH, 1), (FOREACH, 2)], hist))
+                    for sp in lazy:
+                        if _res_type(sp, ty) not in (I, KI):
+                            continue
+                        cases.append(([src, _mk(sp, 0), (REPARTITION, 1, n_), (COUNT, 2), (FOREACH, 2), (FOREACH, 3)], hist))
+                        cases.append(([src, _mk(sp, 0), (FILTER, 1, 0), (REPARTITION, 2, n_), (COUNT, 3), (FOREACH, 4)], hist))
             if not light and one and dflt is True:
                 # registration after start(): the source (+ an action) first, 0 or 1 ticks, then each op /
                 # each diamond with its actions, then two more ticks
@@ -816,6 +865,9 @@ def systematic():
             # every op directly on the source, with an action on the source and on the result
             for spec in SYS_UNARY[ty]:
                 cases.append(([src, _mk(spec, 0), (FOREACH, 1), (FOREACH, 0)], hist))
+                if dflt is True and not light:
+                    # the first action calls ssc.stop() in the last interval; the second one must still fire
+                    cases.append(([src, _mk(spec, 0), (FOREACH, 1, 1), (FOREACH, 0)], hist))
                 # every ordered pair of ops
                 rty = _res_type(spec, ty)
                 for spec2 in ([] if light else SYS_UNARY.get(rty, [])):
@@ -865,6 +917,7 @@ def gen_late_case(rng):
         for _ in range(rng.randint(0 if phase == 0 else 1, 3)):
             t += rng.choice([1, 1, 2])
             hist.append((t, []))
+    _maybe_stopper(rng, prog)
     return (prog, hist)
 
 
@@ -936,7 +989,7 @@ def nontrivial(case, result):
     if isinstance(result, Err):
         return False
     struct, _, ticks = result
-    for _, states in ticks:
+    for _, states, _ in ticks:
         for (k, _), (_, o) in zip(struct, states):
             if k != 0 and o is not None and o[2]:
                 return True
